@@ -116,6 +116,17 @@ def make_readers(rng, tle):
     lines[33]["space"] = [0] * 50
     klm_bytes = l1b.build_file("gac_klm", "noaa16", start_klm, lines)
     configs.append(("gac_klm", klm_bytes, dict(tle_dir=tle_dir, tle_name=tle_name, tle_thresh=40000)))
+    # the same spacecraft and file, but another TLE source (only the oldest element set) / no TLE file at all
+    alt = os.path.join(os.path.dirname(tle_dir.rstrip("/")), "tle_alt")
+    os.makedirs(alt, exist_ok=True)
+    with open(os.path.join(tle_dir, "TLE_noaa16.txt")) as f_:
+        first_set = f_.readlines()[:2]
+    with open(os.path.join(alt, "TLE_noaa16.txt"), "w") as f_:
+        f_.writelines(first_set)
+    empty = os.path.join(os.path.dirname(tle_dir.rstrip("/")), "tle_empty")
+    os.makedirs(empty, exist_ok=True)
+    configs.append(("gac_klm", klm_bytes, dict(tle_dir=alt, tle_name=tle_name, tle_thresh=40000)))
+    configs.append(("gac_klm", klm_bytes, dict(tle_dir=empty, tle_name=tle_name, tle_thresh=40000)))
     for s0 in (2.0, 4.0):   # the same overridden entry with different values
         cu = {"channel_1": {"dark_count": 39.0, "gain_switch": 500.0, "s0": s0, "s1": 0.0, "s2": 0.0}}
         configs.append(("gac_klm", klm_bytes, dict(tle_dir=tle_dir, tle_name=tle_name, tle_thresh=40000, calibration_parameters=dict(custom_coeffs=cu))))
